@@ -13,7 +13,24 @@ def instances(tier, rng):
     cyc4 = vlib.universe("cyc", 4, maxe=6, k=2, w=2, l=1, cap=4)
     us = C.spread(cyc, 36 if quick else 72) + C.spread(cyc4, 110 if quick else 1500)
     us = us + C.spread(C.motifs()[1], 10 if quick else 30)
+    # re-planted flows: larger, coprime-ish walk weights and cycles traversed several times by a light walk
+    base = [u for u in us if any(len(set(p)) < len(p) for p in u["proutes"])]
+    us = us + [C.replant(u, rng) for u in C.spread(base, 24 if quick else 200)]
+    # a light walk spinning on two self-loops a different number of times + a heavy plain walk (generating-set bounds)
+    seen, ll = set(), []
+    for u in cyc4:
+        if str(u["edges"]) not in seen:
+            seen.add(str(u["edges"]))
+            ll += C.light_looping(u, rng, 1 if quick else 3)
     insts, scal = [], []
+    for u in ll:
+        for opt in ({"use_min_gen_set_lowerbound": True}, {"optimize_with_guessed_weights": True, "use_min_gen_set_lowerbound": True,
+                                                          "add_min_gen_set_to_given_weights": True}, {}):
+            r = C.base(u, "MinFlowDecompCycles")
+            r["wt"] = "int"
+            r["expect_solved"] = True
+            r["opt"] = opt
+            insts.append(r)
     g = 0
     for u in us:
         cfgs = [{}, {"mode": "node"}]
